@@ -50,7 +50,7 @@ def build_configs(o: dict):
         alpn_protocols=o.get("alpn_c"),
         idle_timeout=o.get("idle", 30.0),
         supported_versions=[V[x] for x in o.get("versions_c", ["v1", "v2"])],
-        server_name="localhost",
+        server_name=o.get("server_name", "localhost"),
         max_datagram_frame_size=65536,
     )
     if o.get("original_version"):
@@ -70,7 +70,7 @@ def build_configs(o: dict):
     )
     if o.get("suites_s"):
         scfg.cipher_suites = [CipherSuite[x] for x in o["suites_s"]]
-    scfg.certificate, scfg.private_key = P.leaf(o.get("key", "p256"), o.get("flavour", "good"))
+    scfg.certificate, scfg.private_key = P.leaf(o.get("key", "p256"), o.get("flavour", "good"), cn=o.get("cert_cn", "localhost"))
     scfg.certificate_chain = P.chain_for(o.get("flavour", "good"))
     if o.get("wrong_key"):
         scfg.private_key = P.key(o.get("key", "p256"), slot=1)
@@ -521,7 +521,16 @@ def c_matrix(batch, res):
 
 Q_NEG = ["wrong-name", "expired", "not-yet", "self-signed", "untrusted-ca", "wrong-key",
          "untrusted-ca+root-in-chain", "untrusted-inter+root-in-chain", "untrusted-inter-in-chain"]
-Q_POS = ["control-good", "good-via-intermediate", "good+ca-in-chain"]
+# requested name is an IP literal (never sent as SNI, still to be matched against the certificate's iPAddress names)
+Q_NEG += ["ipv4-name:cert-for-dns-name", "ipv6-name:cert-for-dns-name", "ipv4-name:cert-for-other-ip"]
+Q_POS = ["control-good", "good-via-intermediate", "good+ca-in-chain", "ipv4-name:cert-for-that-ip", "ipv6-name:cert-for-that-ip"]
+IP_CASES = {
+    "ipv4-name:cert-for-dns-name": ("192.0.2.10", "localhost"),
+    "ipv6-name:cert-for-dns-name": ("2001:db8::1", "localhost"),
+    "ipv4-name:cert-for-other-ip": ("192.0.2.10", "192.0.2.99"),
+    "ipv4-name:cert-for-that-ip": ("192.0.2.10", "192.0.2.10"),
+    "ipv6-name:cert-for-that-ip": ("2001:db8::1", "2001:db8::1"),
+}
 
 
 def q_negauth(batch, res):
@@ -531,7 +540,9 @@ def q_negauth(batch, res):
         for case_name in cases:
             o = {"key": kind, "alpn_c": ["vf"], "alpn_s": ["vf"], "versions_c": ["v1", "v2"], "versions_s": ["v1", "v2"], "suites_c": None, "suites_s": None,
                  "retry": False, "client_cert": None}
-            if case_name == "wrong-key":
+            if case_name in IP_CASES:
+                o["server_name"], o["cert_cn"] = IP_CASES[case_name]
+            elif case_name == "wrong-key":
                 o["wrong_key"] = True
             elif case_name != "control-good":
                 o["flavour"] = case_name
